@@ -35,7 +35,7 @@ def families(tier):
         {'name': 'A2a', 'params': {'kinds': ['list_dir', 'walk'], 'roles': ['in', 'o'], 'mut_paths': [], 'hist': 'BB', 'perm': True}, 'weight': 1},
         {'name': 'A3', 'params': {'kinds': ['is_file', 'read_m'], 'roles': ['in/x'], 'targets': ['o/d/g'],
                                   'modes': ['ok', 'raise_after'], 'mut_paths': mp}, 'weight': 3},
-        {'name': 'A4', 'params': {'kinds': ['is_dir', 'list_dir'], 'roles': ['o'], 'targets': ['o/d/g'],
+        {'name': 'A4', 'params': {'kinds': ['is_dir', 'list_dir', 'get_size', 'exists', 'read_h'], 'roles': ['o'], 'targets': ['o/d/g'],
                                   'modes': ['ok', 'raise_before', 'raise_after'], 'mut_paths': ['in/x', 'o/d', 'o/d/g', 'o/z']}, 'weight': 3},
         {'name': 'A5b', 'params': {'modes': ['ok', 'raise_before'], 'mut_paths': ['in/x', 'o/d/g', 'o/z']}, 'weight': 2},
         {'name': 'A6', 'params': {'kinds': ['is_dir', 'list_dir'], 'mut_paths': ['in/x', 'o/z']}, 'weight': 3},
